@@ -16,6 +16,7 @@ from fractions import Fraction
 from . import poly
 from .poly import Poly, as_poly
 from .model import AnalysisError, fn_label
+from . import regex as _regex
 
 
 class Unsupported(AnalysisError):
@@ -847,6 +848,8 @@ class Interp:
             if c is not None:
                 return c != 0
             return self.decide_sign(v, {-1, 1}, "%s != 0" % v.short(60))
+        if isinstance(v, (_regex.Match, _regex.Regex)):
+            return True
         if isinstance(v, (list, tuple, dict, str, set, frozenset)):
             return len(v) > 0
         if isinstance(v, BoolArr):
@@ -1341,6 +1344,11 @@ class Interp:
         return self.index(v, idx, n)
 
     def index(self, v, idx, node):
+        if isinstance(v, _regex.Match):
+            try:
+                return v.group(idx if isinstance(idx, str) else self.intval(idx, node))
+            except IndexError:
+                raise PathRaise("IndexError(no such group)", self.where(node))
         if isinstance(v, str):
             if isinstance(idx, (slice, int)):
                 try:
@@ -1504,6 +1512,14 @@ class Interp:
                 return Opaque("callable", (lambda v=v: BytesVal([v])))
             if a == "item":
                 return Opaque("callable", (lambda v=v: v))
+        if isinstance(v, _regex.Regex):
+            if a == "pattern":
+                return v.pattern
+            if a == "groups":
+                return Poly.const(v.rx.groups)
+            return Opaque("callable", (lambda *args, v=v, a=a, n=n, **kw: self.re_call(a, v, list(args), kw, n)))
+        if isinstance(v, _regex.Match):
+            return Opaque("callable", (lambda *args, v=v, a=a, n=n, **kw: self.match_method(v, a, list(args), kw, n)))
         if isinstance(v, VFile):
             return Opaque("vfile", v, a)
         if isinstance(v, BoolArr) and a in ("all", "any"):
@@ -1616,7 +1632,7 @@ class Interp:
         if k == "import":
             return self.imported_call(f.payload[0], args, kw, n)
         if k == "callable":
-            return f.payload[0](*args)
+            return f.payload[0](*args, **kw) if kw else f.payload[0](*args)
         raise self.unsupported("call of %r" % (f,), n)
 
     def imported_call(self, origin, args, kw, n):
@@ -1659,6 +1675,8 @@ class Interp:
             if leaf == "itemgetter":
                 return Opaque("callable", (lambda x, keys=keys: self.index(x, self.intval(keys[0], n), n) if len(keys) == 1 else
                                            tuple(self.index(x, self.intval(k, n), n) for k in keys)))
+        if origin == "re" or origin.startswith("re."):
+            return self.re_call(leaf, None, args, kw, n)
         if leaf == "defaultdict":
             d = DDict()
             fac = args[0] if args else None
@@ -1922,6 +1940,85 @@ class Interp:
                         return tuple(r)
                     return r
         raise self.unsupported("method %s of %s" % (name, type(v).__name__), n)
+
+    # ------------------------------------------------------------------------------------ regular expressions
+    def re_flags(self, v, n):
+        import re as _re
+        if v is None:
+            return 0
+        if isinstance(v, Poly) and v.const_value() is not None:
+            return int(v.const_value())
+        if isinstance(v, Opaque) and v.kind == "import" and v.payload[0].startswith("re."):
+            return int(getattr(_re, v.payload[0].split(".", 1)[1]))
+        raise self.unsupported("regular-expression flags %r" % (v,), n)
+
+    def re_call(self, name, rx, args, kw, n):
+        """re.<name>(pattern, ...) when rx is None, else <compiled>.<name>(...)."""
+        import re as _re
+        args = list(args)
+        if name == "escape" and rx is None:
+            if not isinstance(args[0], str) or "\x01" in args[0]:
+                raise self.unsupported("re.escape of a non-literal", n)
+            return _re.escape(args[0])
+        if rx is None:
+            pat = args.pop(0)
+            if isinstance(pat, _regex.Regex):
+                rx = pat
+            elif isinstance(pat, str) and "\x01" not in pat:
+                flags = kw.pop("flags", None)
+                if name == "compile" and args:
+                    flags = args.pop(0)
+                elif name in ("match", "fullmatch", "search", "findall", "finditer") and len(args) > 1:
+                    flags = args.pop(1)
+                try:
+                    rx = _regex.Regex(pat, self.re_flags(flags, n))
+                except _re.error as e:
+                    raise PathRaise("re.error(%s)" % e, self.where(n))
+            else:
+                raise self.unsupported("regular expression built from data", n)
+            if name == "compile":
+                return rx
+        is_int = lambda tok: tok in self.ph_val and self.ph_val[tok].key() in self.int_tokens
+        try:
+            if name in ("match", "fullmatch", "search"):
+                s_ = args[0]
+                if not isinstance(s_, str):
+                    raise PathRaise("TypeError(expected string)", self.where(n))
+                return _regex.match(rx, s_, is_int, name)
+            if name in ("findall", "finditer"):
+                ms = _regex.finditer(rx, args[0], is_int)
+                if name == "finditer":
+                    return ms
+                if rx.rx.groups == 0:
+                    return [m.whole for m in ms]
+                if rx.rx.groups == 1:
+                    return [m.groups_[0] if m.groups_[0] is not None else "" for m in ms]
+                return [tuple(g if g is not None else "" for g in m.groups_) for m in ms]
+            if name == "split":
+                ms = kw.get("maxsplit", args[1] if len(args) > 1 else None)
+                return _regex.split(rx, args[0], is_int, self.intval(ms, n) if ms is not None else 0)
+            if name == "sub":
+                if not isinstance(args[0], str):
+                    raise self.unsupported("re.sub with a function", n)
+                cnt = kw.get("count", args[2] if len(args) > 2 else None)
+                return _regex.sub(rx, args[0], args[1], is_int, self.intval(cnt, n) if cnt is not None else 0)
+        except _regex.SpellingDependent as e:
+            raise LossyOperation("regular expression does not treat every spelling of a number alike: %s" % e, self.where(n))
+        raise self.unsupported("re.%s" % name, n)
+
+    def match_method(self, m, name, args, kw, n):
+        try:
+            if name == "groups":
+                d = args[0] if args else kw.get("default")
+                return tuple(g if g is not None else d for g in m.groups_)
+            if name == "group":
+                return m.group(*[a if isinstance(a, str) else self.intval(a, n) for a in args])
+            if name == "groupdict":
+                d = args[0] if args else kw.get("default")
+                return {k: (m.groups_[i - 1] if m.groups_[i - 1] is not None else d) for k, i in m.names.items()}
+        except IndexError:
+            raise PathRaise("IndexError(no such group)", self.where(n))
+        raise self.unsupported("match-object method %s" % name, n)
 
     # ------------------------------------------------------------------------------------ strings (the .g2o text layer)
     def placeholder(self, p):
